@@ -29,6 +29,13 @@ static MgrNode *verif_GetMgrNode(InstMgr *, int i) { return g_nodes[i]; }
 static int verif_InstanceCount(InstMgr *) { return g_count; }
 #include <math.h>
 #include <string.h>
+/* models for h_CreateInstance (see unit.json) */
+static int g_skip_calls; static SDAI_Application_instance *g_created; static int g_create_calls, g_deleted_calls; static ErrorDescriptor *g_obj_error;
+Severity SkipInstance(istream &in, std::string &) { g_skip_calls++; for (int i = 0; i < 12; i++) { int c = in.get(); if (c < 0 || c == ';') break; } return SEVERITY_NULL; }
+const char *ReadStdKeyword(istream &in, std::string &buf, int) { for (int i = 0; i < 8; i++) { int c = in.peek(); if (c < 0 || !((c >= 'A' && c <= 'Z') || c == '_')) break; buf += (char)in.get(); } return buf.c_str(); }
+static SDAI_Application_instance *verif_ObjCreate(const char *, const char *) { g_create_calls++; return g_created; }
+static void verif_delete_obj(SDAI_Application_instance *) { g_deleted_calls++; }
+static ErrorDescriptor &verif_obj_error(SDAI_Application_instance *) { return *g_obj_error; }
 /* models for h_FindHeaderSection (see unit.json) */
 static char *verif_strstr(char *h, const char *n) { for (int i = 0; i < 16 && h[i]; i++) { int j = 0; while (j < 8 && n[j] && h[i + j] == n[j]) j++; if (!n[j]) return h + i; } return 0; }
 #define strstr verif_strstr
